@@ -109,7 +109,9 @@ pub const WD_NARROW: [&str; 7] = ["S", "M", "T", "W", "T", "F", "S"];
 pub const WD_SHORT: [&str; 7] = ["Su", "Mo", "Tu", "We", "Th", "Fr", "Sa"];
 
 fn pad(n: u64, width: usize) -> String {
-    format!("{:0w$}", n, w = width)
+    // by hand: a runtime formatting width above u16::MAX panics
+    let d = n.to_string();
+    format!("{}{}", "0".repeat(width.saturating_sub(d.len())), d)
 }
 
 fn pad_signed(n: i64, width: usize) -> String {
